@@ -37,9 +37,9 @@ var (
 	TStr  = &Type{K: KStr}
 )
 
-func SliceOf(t *Type) *Type { return &Type{K: KSlice, Elem: t} }
+func SliceOf(t *Type) *Type  { return &Type{K: KSlice, Elem: t} }
 func MapOf(k, v *Type) *Type { return &Type{K: KMap, Key: k, Elem: v} }
-func PtrTo(t *Type) *Type   { return &Type{K: KPtr, Elem: t} }
+func PtrTo(t *Type) *Type    { return &Type{K: KPtr, Elem: t} }
 
 func (t *Type) Go() string {
 	switch t.K {
@@ -66,7 +66,7 @@ func (t *Type) Go() string {
 }
 
 func (t *Type) Eq(u *Type) bool { return t.Go() == u.Go() }
-func (t *Type) IsInt() bool      { return t.K == KU64 || t.K == KU32 || t.K == KU8 }
+func (t *Type) IsInt() bool     { return t.K == KU64 || t.K == KU32 || t.K == KU8 }
 func (t *Type) Width() uint {
 	switch t.K {
 	case KU64:
@@ -93,20 +93,20 @@ type Expr struct {
 
 // Stmt is a statement tree.
 type Stmt struct {
-	Op    string // define var assign opassign incdec if for forcond rangeslice rangemap return break continue block expr define2 raw
-	Name  string
-	Name2 string
-	T     *Type
-	E     *Expr
-	Lhs   *Expr
-	Es    []*Expr
-	Body  []*Stmt
-	Else  []*Stmt
+	Op      string // define var assign opassign incdec if for forcond rangeslice rangemap return break continue block expr define2 raw
+	Name    string
+	Name2   string
+	T       *Type
+	E       *Expr
+	Lhs     *Expr
+	Es      []*Expr
+	Body    []*Stmt
+	Else    []*Stmt
 	HasElse bool
-	Init  *Stmt
-	Post  *Stmt
-	Tok   string
-	Raw   string // raw Go text (catalogue insertions)
+	Init    *Stmt
+	Post    *Stmt
+	Tok     string
+	Raw     string // raw Go text (catalogue insertions)
 	Comment string // a comment line printed before the statement
 }
 
@@ -469,6 +469,37 @@ func (p *Package) GoFiles(names []string, order [][]int, imports []string) map[s
 		out[name] = sb.String()
 	}
 	return out
+}
+
+// Shuffled returns file names and a per-file order of the declarations: a
+// random permutation split over 1-3 files whose names sort in an arbitrary way.
+func (p *Package) Shuffled(intn func(int) int) ([]string, [][]int) {
+	n := len(p.Decls)
+	perm := make([]int, n)
+	for i := range perm {
+		perm[i] = i
+	}
+	for i := n - 1; i > 0; i-- {
+		j := intn(i + 1)
+		perm[i], perm[j] = perm[j], perm[i]
+	}
+	pool := []string{"a.go", "b.go", "z.go", "0.go", "m_file.go", "Q.go"}
+	nf := 1 + intn(3)
+	var names []string
+	used := map[string]bool{}
+	for len(names) < nf {
+		c := pool[intn(len(pool))]
+		if !used[c] {
+			used[c] = true
+			names = append(names, c)
+		}
+	}
+	order := make([][]int, nf)
+	for _, d := range perm {
+		f := intn(nf)
+		order[f] = append(order[f], d)
+	}
+	return names, order
 }
 
 // GoFile prints everything into one file in declaration order.
